@@ -181,12 +181,13 @@ check("C05", "GC never removes retained or recent content", "exploration",
       "Randomised model-based search over object graphs (shared and aliased digests, nested indexes, foreign-typed children, referrers of referrers, dangling/blob-only/circular subjects), "
       "push/delete histories, ageing, and collections per repository, store-wide and through restart under all 16 policy combinations x grace {off, 1 h} x {mem, dir}; before each collection "
       "the must-keep set is computed from the statement alone (settings never add to it), after it every member must be served byte-identically, every tag must resolve and pull completely. A second generator runs 2-5 clients pushing complete images "
-      "(shared layers, three upload protocols, optionally over stale copies of the same layers) while a 1 ms ticker and a collection loop run with every policy on and a 1 h grace: no upload may be lost between its blobs and its manifest. "
+      "(shared layers, three upload protocols, optionally over stale copies of the same layers) while a 1 ms ticker and a collection loop run with every policy on and a 1 h grace: no upload may be lost between its blobs and its manifest. TestC05Faults (vfs build): one reading file-system call of a collection (uniform over the reads of a fault-free collection of the same directory) fails with EIO; every tag must still pull completely and the artifact of a tagged subject must stay served and listed. "
       "A third test owns the schedule (vfs pause points): a collection of the directory store is paused before its stat or its removal of an old blob and a client request (a completing PUT already in flight, uploads, a mount, a manifest push) runs at that moment.",
       "Trusted: the closure in c05_test.go (two documented weakenings from Appendix B of DESIGN.md; root status of child manifests is not asserted while finding C05/orphaned-child is open - counted "
       "in evidence); ageing through the add-only hook VerifAgeBlobs (Chtimes / in-memory metadata).",
       "DESIGN.md §3 C05",
-      [R("^TestC05$", 12000, 400000, steps=35), R("^TestC05Concurrent$", 1600, 20000, shards=(4, 16)), R("^TestC05Interleave$", 96, 1200, shards=(8, 16), variant="vfs")])
+      [R("^TestC05$", 12000, 400000, steps=35), R("^TestC05Concurrent$", 1600, 20000, shards=(4, 16)), R("^TestC05Interleave$", 96, 1200, shards=(8, 16), variant="vfs"),
+       R("^TestC05Faults$", 2400, 100000, variant="vfs")])
 
 check("C06", "collection removes exactly the garbage, converges, is not starved", "exploration",
       "E2 object graphs + multi-repository mixes (ghost/empty/removed/corrupt) aged beyond grace; oracle = reachability over the post-pass index (no garbage, no dangling entry), policy rules where unambiguous, second pass is a no-op, per healthy repository",
